@@ -22,22 +22,25 @@ Proof.
       exists v', true. repeat split. discriminate.
 Qed.
 Lemma wrow_insert_cell_spec x (c : nat * cell) cs : wf cs -> 0 <= x ->
-  exists cs' rs, wrow_insert_cell x c cs (cmap cs) = Some (cs', cmap cs', rs) /\ row_insert_cell x c cs = Some cs'.
+  exists cs' rs, wrow_insert_cell x c cs (cmap cs) = Some (cs', cmap cs', rs) /\ row_insert_cell x c cs = Some cs' /\
+                 (rs = false -> (length cs <= length cs')%nat).
 Proof.
   intros Hw Hx. destruct c as [n cv]. unfold wrow_insert_cell, row_insert_cell, rwidth. rewrite hmap_cmap. cbn [fst].
   destruct (Z.ltb_spec (x - Z.of_nat (width cs)) 0).
-  - destruct (insert_map_correct x (n, cv) cs Hw ltac:(lia)) as (v' & Hs & Hm). cbn [fst] in Hm. rewrite Hs, Hm. exists v', true. auto.
+  - destruct (insert_map_correct x (n, cv) cs Hw ltac:(lia)) as (v' & Hs & Hm). cbn [fst] in Hm. rewrite Hs, Hm. exists v', true.
+    repeat split. discriminate.
   - destruct (Z.eqb_spec (x - Z.of_nat (width cs)) 0).
-    + exists (cs ++ [(n, cv)]), false. rewrite (app_map_cmap cs n cv). auto.
+    + exists (cs ++ [(n, cv)]), false. rewrite (app_map_cmap cs n cv). repeat split. rewrite app_length. lia.
     + eexists (cs ++ [(_, empty_cell); (n, cv)]), false.
-      rewrite (app_map_cmap cs _ empty_cell), (app_map_cmap _ n cv), <- app_assoc. repeat split.
+      rewrite (app_map_cmap cs _ empty_cell), (app_map_cmap _ n cv), <- app_assoc. repeat split. rewrite app_length. lia.
 Qed.
 Lemma wrow_delete_cell_spec x cs : wf cs -> 0 <= x ->
-  exists cs' rs, wrow_delete_cell x cs (cmap cs) = Some (cs', cmap cs', rs) /\ row_delete_cell x cs = Some cs'.
+  exists cs' rs, wrow_delete_cell x cs (cmap cs) = Some (cs', cmap cs', rs) /\ row_delete_cell x cs = Some cs' /\
+                 (rs = false -> (length cs <= length cs')%nat).
 Proof.
   intros Hw Hx. unfold wrow_delete_cell, row_delete_cell, rwidth. rewrite hmap_cmap.
   destruct (Z.leb_spec (Z.of_nat (width cs)) x); [exists cs, false; auto|].
-  destruct (delete_map_correct x cs Hw ltac:(lia)) as (v' & Hs & Hm). rewrite Hs, Hm. exists v', true. auto.
+  destruct (delete_map_correct x cs Hw ltac:(lia)) as (v' & Hs & Hm). rewrite Hs, Hm. exists v', true. repeat split. discriminate.
 Qed.
 
 Lemma cwf_nth t i rep st cs : cwf t -> nth_error (rows t) i = Some (rep, (st, cs)) -> wf cs.
@@ -111,7 +114,7 @@ Lemma b_insert_cell_spec x y c b : Coh b -> 0 <= x -> 0 <= y ->
 Proof.
   intros Hc Hx Hy. unfold b_insert_cell, t_insert_cell.
   destruct (b_base_row_spec y b Hc Hy) as (st & cs & b1 & Hb & Ha & Hw & Hax & Hc1). rewrite Hb, Ha.
-  destruct (wrow_insert_cell_spec x c cs Hw Hx) as (cs' & rs & Hws & Hrs). rewrite Hws, Hrs.
+  destruct (wrow_insert_cell_spec x c cs Hw Hx) as (cs' & rs & Hws & Hrs & _). rewrite Hws, Hrs.
   rewrite <- Hax. apply (b_set_row_spec y 1 (st, cs') b1 Hc1 Hy). lia.
 Qed.
 Lemma b_append_cell_spec y c b : Coh b -> 0 <= y ->
@@ -129,7 +132,7 @@ Proof.
   destruct (b_base_row_spec y b Hc Hy) as (st & cs & b1 & Hb & Ha & Hw & Hax & Hc1). rewrite Hb.
   unfold base_row in Ha. destruct (Z.leb_spec (theight (ax b)) y); [lia|].
   destruct (row_at y (ax b)) as [[rep [st' cs'']]|]; [|discriminate]. inversion Ha; subst st' cs''.
-  destruct (wrow_delete_cell_spec x cs Hw Hx) as (cs' & rs & Hws & Hrs). rewrite Hws, Hrs.
+  destruct (wrow_delete_cell_spec x cs Hw Hx) as (cs' & rs & Hws & Hrs & _). rewrite Hws, Hrs.
   rewrite <- Hax. apply (b_set_row_spec y 1 (st, cs') b1 Hc1 Hy). lia.
 Qed.
 
